@@ -37,7 +37,7 @@ type ammWorld struct {
 	rng     *Rng
 	blocked map[string]bool
 	halted  bool
-	// number of provider refunds made by successful decommissions so far (each truncates < 1 unit per token)
+	// what the provider refunds of successful decommissions so far may have left behind per token (see opDecom)
 	decomBudget int
 }
 
@@ -787,10 +787,26 @@ func (w *ammWorld) opDecom(sym string) {
 			}
 		}
 	}
+	// what one refund may leave behind per token: the truncated base unit plus the 18-decimal rounding of the
+	// quotients inside CalculateWithdrawal, whose absolute error scales with the depth (<= depth * 1e-17, generous)
+	perRefund := 2
+	if p := w.pool(sym); p != nil {
+		nD, eD := p.ExtractDebt(p.NativeAssetBalance, p.ExternalAssetBalance, false)
+		m := nD.BigInt()
+		if eD.BigInt().Cmp(m) > 0 {
+			m = eD.BigInt()
+		}
+		q := new(big.Int).Quo(m, new(big.Int).Exp(big.NewInt(10), big.NewInt(17), nil))
+		if q.IsInt64() && q.Int64() < 1<<40 {
+			perRefund += int(q.Int64())
+		} else {
+			perRefund += 1 << 40
+		}
+	}
 	w.tx(fmt.Sprintf("decom %s %s", w.users[0], sym), "decom", func(ctx sdk.Context) (string, error) {
 		_, err := w.srv.DecommissionPool(sdk.WrapSDKContext(ctx), &clptypes.MsgDecommissionPool{Signer: w.users[0].String(), Symbol: sym})
 		if err == nil {
-			w.decomBudget += n
+			w.decomBudget += n * perRefund
 		}
 		return "", err
 	})
